@@ -7,7 +7,7 @@ from hypothesis import strategies as st
 
 from .. import gen, ops, ref
 from ..ctx import Result, Viol
-from ..faults import Injector
+from .c18_faults import KINDS, TypedInjector
 from .c18_model import Model, is_prefix, resolve
 
 LEVEL = "fault_enumeration"
@@ -29,7 +29,8 @@ RULE = (
     "(independent per prefix; a read-only remote already holds everything below its prefix), a plain tracked file under another remote of the same "
     "cache whose content equals a file inside a tracked directory, closed pre-existing remote contents, explicit "
     "collection index on/off, and a fault plan: object ids whose "
-    "final placement into (a subset of) the remotes raises EIO in push round 1, optionally ids whose placement "
+    "final placement into (a subset of) the remotes raises, per id, one of OSError(EIO), "
+    "FileNotFoundError(ENOENT), PermissionError(EACCES), OSError(ENOSPC), TimeoutError in push round 1, optionally ids whose placement "
     "into the caches fails in a first fetch round. Flow: index.build -> md5 -> save, collect(push=True) + push "
     "twice (faulty, clean), caches emptied, collect + fetch (optionally faulty, then clean), compare(None, idx) + "
     "apply from the caches. For about half of the scenarios the push half is additionally repeated on fresh "
@@ -432,6 +433,8 @@ def flow_cases(draw):  # noqa: C901, PLR0912, PLR0915
         "pre": [[draw(st.integers(0, 7)), draw(st.sampled_from(["full", "files", "one"]))]
                 for _ in range(draw(st.sampled_from([0, 0, 1, 2])))],
         "fail": sorted(draw(st.sets(st.integers(0, 23), min_size=1, max_size=3))) if plan == "fail" else [],
+        "fail_kinds": draw(st.lists(st.sampled_from(KINDS), min_size=1, max_size=3)),
+        "ffail_kinds": draw(st.lists(st.sampled_from(KINDS), min_size=1, max_size=2)),
         "fail_roots": draw(st.one_of(st.none(), st.lists(st.integers(0, nr - 1), min_size=1, max_size=nr,
                                                          unique=True))),
         "ffail": sorted(draw(st.sets(st.integers(0, 23), min_size=1, max_size=2)))
@@ -680,13 +683,15 @@ def run_flow(case, ctx):  # noqa: C901, PLR0912, PLR0915
 
             new1 = new_for_push(before)
             moving = sorted(set().union(*new1.values())) if new1 else []
-            if isinstance(plan, set):
+            kinds = case.get("fail_kinds") or ["EIO"]
+            if isinstance(plan, dict):
                 fail = plan
             else:
-                fail = {moving[i % len(moving)] for i in plan} if moving else set()
+                chosen = sorted({moving[i % len(moving)] for i in plan}) if moving else []
+                fail = {oid: kinds[j % len(kinds)] for j, oid in enumerate(chosen)}
             froots = roots if fail_roots is None else [roots[i % nr] for i in fail_roots]
             data = do_collect(tidx, phase, push=True)
-            inj = Injector(froots, fail=fail)
+            inj = TypedInjector(froots, fail)
             with inj:
                 pushed1, failed1 = push(data, jobs=case["jobs"])
             after1 = _snap(roots, f"after push round 1{tag}", viols)
@@ -737,7 +742,9 @@ def run_flow(case, ctx):  # noqa: C901, PLR0912, PLR0915
         enumerated = efaults = 0
         if case.get("enum"):
             for n, oid in enumerate(P["moving"][:ENUM_CAP]):
-                efaults += len(push_phase(f"e{n}", {oid}, None, f"push-e{n}")["inj"].faulted)
+                ekinds = case.get("fail_kinds") or ["EIO"]
+                efaults += len(push_phase(f"e{n}", {oid: ekinds[n % len(ekinds)]}, None,
+                                          f"push-e{n}")["inj"].faulted)
                 enumerated += 1
                 if viols:
                     return Result(viols + known_v, False, ["push-violation", "enumerated-single-fault"], {"known_shape_hits": len(known_v)})
@@ -837,8 +844,9 @@ def run_flow(case, ctx):  # noqa: C901, PLR0912, PLR0915
             c0 = _snap(croots, "caches emptied", viols)
             if case["ffail"]:
                 want_all = sorted(set().union(*src_c.values())) if src_c else []
-                ffail = {want_all[i % len(want_all)] for i in case["ffail"]} if want_all else set()
-                finj = Injector(croots, fail=ffail)
+                fk = case.get("ffail_kinds") or ["EIO"]
+                fchosen = sorted({want_all[i % len(want_all)] for i in case["ffail"]}) if want_all else []
+                finj = TypedInjector(croots, {oid: fk[j % len(fk)] for j, oid in enumerate(fchosen)})
                 with finj:
                     fetched1, ffailed1 = fetch(fdata, jobs=case["jobs"])
                 c1 = _snap(croots, "after fetch round 1", viols)
@@ -985,6 +993,8 @@ def run_flow(case, ctx):  # noqa: C901, PLR0912, PLR0915
         hit = {oid for _, oid in inj.faulted}
         if hit:
             cl.append("fault-hit")
+            for kk in sorted({inj.kinds.get(o, "EIO") for o in hit}):
+                cl.append(f"push-fault={kk}")
             listed = set().union(*[e["listed"] for e in m.entries.values()])
             if hit & listed:
                 cl.append("fault-hit-listed-file")
@@ -994,6 +1004,8 @@ def run_flow(case, ctx):  # noqa: C901, PLR0912, PLR0915
                 cl.append("fault-on-some-remotes")
         if finj is not None and finj.faulted:
             cl.append("fetch-fault-hit")
+            for kk in sorted({finj.kinds.get(o, "EIO") for _, o in finj.faulted}):
+                cl.append(f"fetch-fault={kk}")
         if enumerated:
             cl.append("single-faults-enumerated")
         if sum(len(v) for v in new2.values()) == 0:
